@@ -36,8 +36,12 @@ def typed(prog):
                         x[k] = nt(x[k])
                 if "pts" in x:
                     x["pts"] = [nt(a) for a in x["pts"]]
+            if e == "where":
+                for dd in x["defs"]:
+                    dd["t"] = nt(dd["t"])
+                    walk(dd["v"])
             for k, v in x.items():
-                if k not in ("t", "rt", "et", "pts", "ty"):
+                if k not in ("t", "rt", "et", "pts", "ty") and not (e == "where" and k == "defs"):
                     walk(v)
         elif isinstance(x, list):
             for v in x:
